@@ -917,11 +917,16 @@ class Interp:
         if isinstance(src, self.models.SRange):
             lo = src.lo
             nn = z3.simplify(term(src.hi) - term(lo))
+            in_spec = self.p.spec_mode
 
             def fn(i):
                 e2 = Env(env.mod, env)
                 self.assign(g.target, mk(term(i) + term(lo)), e2)
-                return self.eval(n.elt, e2)
+                self.p.spec_mode += in_spec       # a comprehension written in a specification stays one when forced later
+                try:
+                    return self.eval(n.elt, e2)
+                finally:
+                    self.p.spec_mode -= in_spec
             return Vec(nn, fn)
         if isinstance(src.n, int):
             return self._listcomp_from(n, env, src)
@@ -1116,6 +1121,20 @@ class Interp:
                 raise self.p.pyexc('TypeError')
         return vals
 
+    def defaults_env(self, f):
+        """default values of a method are evaluated in the class body scope (class constants visible)"""
+        if f.cls is None or not f.node.args.defaults and not f.node.args.kw_defaults:
+            return f.env
+        cv = {}
+        for c in reversed(self.repo.mro(f.cls)):
+            m = self.repo.module(c.mod)
+            for nm, ex in c.class_consts.items():
+                try:
+                    cv[nm] = self.eval(ex, Env(m, None, dict(cv)))
+                except (Unsupported, PyExc):
+                    pass
+        return Env(f.mod, f.env, cv)
+
     def call_func(self, f, args, kwargs):
         node = f.node
         if isinstance(node, ast.Lambda):
@@ -1126,7 +1145,7 @@ class Interp:
         if self.depth > 0 or self.p.spec_mode or self.engine.always_modular:
             c = self.engine.callee_contract(qual, self)
             if c is not None:
-                vals = self.bind(node, args, kwargs, f.env, f.self_obj)
+                vals = self.bind(node, args, kwargs, self.defaults_env(f), f.self_obj)
                 if c.pure:
                     # a pure function applied to the same argument objects yields the same result object
                     key = (c.qual,) + tuple((k, id(v) if not isinstance(v, (int, str, Fraction, bool, type(None))) else ('v', v))
@@ -1140,7 +1159,7 @@ class Interp:
                 return self.engine.apply_contract(self, c, vals)
         if self.depth > MAX_DEPTH:
             raise Unsupported('call depth')
-        vals = self.bind(node, args, kwargs, f.env, f.self_obj)
+        vals = self.bind(node, args, kwargs, self.defaults_env(f), f.self_obj)
         env = Env(f.mod, f.env, vals)
         if f.cls is not None:
             env.vars['__class__'] = f.cls
